@@ -86,6 +86,7 @@ func cmdVerify(args []string) {
 	keys := matchFuncs(e, fs.Args())
 	var all []*Obligation
 	t0 := time.Now()
+	nerr := 0
 	for _, k := range keys {
 		fn := e.funcs[k]
 		spec := e.specFor(fn)
@@ -101,7 +102,8 @@ func cmdVerify(args []string) {
 		}
 		ctx, x, err := e.VerifyFunction(fn)
 		if err != nil {
-			fmt.Printf("%-60s ERROR %v\n", k, err)
+			fmt.Printf("FAIL %-60s ERROR contract-binding: %v\n", k, err)
+			nerr++
 			continue
 		}
 		_ = x
@@ -136,7 +138,8 @@ func cmdVerify(args []string) {
 			}
 		}
 	}
-	fmt.Printf("%d obligations, %d not discharged; generation %.1fs, total %.1fs\n", len(all), bad, gen.Seconds(), time.Since(t0).Seconds())
+	bad += nerr
+	fmt.Printf("%d obligations, %d not discharged (%d binding errors); generation %.1fs, total %.1fs\n", len(all), bad, nerr, gen.Seconds(), time.Since(t0).Seconds())
 	if bad > 0 {
 		os.Exit(1)
 	}
